@@ -23,7 +23,7 @@ def load(modname, cut_loops, mutate=None, the_vc=None):
     return instrument.load(modname, rebind=rebind, cut_loops=cut_loops, mutate=mut, vc=the_vc)
 
 
-def run_kernel(modname, fname, loopkinds, make_args, post, mutate=None, prefix="C09"):
+def run_kernel(modname, fname, loopkinds, make_args, post, mutate=None, prefix="C09", record=None):
     """loopkinds: list like ['map', 'map', 'sum'] in source order"""
     V = vcm.VC()
     cut = {fname: {n + 1: f"{fname}.L{n + 1}" for n in range(len(loopkinds))}}
@@ -33,6 +33,9 @@ def run_kernel(modname, fname, loopkinds, make_args, post, mutate=None, prefix="
     def body():
         c = sym.ctx()
         c.uf_math = True
+        c.kernel_prefix = prefix
+        if record:
+            c.record_prefixes = tuple(record)
         specs = {}
         for n, kind in enumerate(loopkinds):
             lab = f"{fname}.L{n + 1}"
@@ -54,3 +57,23 @@ def summand_at(info, **subst):
         if nm in subst:
             pairs.append((x, subst[nm]))
     return z3.substitute(term, *pairs) if pairs else term
+
+
+def independent_of_uninitialised(term):
+    """z3 goal: the term does not depend on the contents of any np.empty buffer (every element read was assigned before)"""
+    apps = []
+    seen = set()
+    todo = [term]
+    while todo:
+        t = todo.pop()
+        if t.get_id() in seen:
+            continue
+        seen.add(t.get_id())
+        if z3.is_app(t):
+            if t.decl().kind() == z3.Z3_OP_UNINTERPRETED and t.decl().name().startswith("empty!") and t.num_args() > 0:
+                apps.append(t)
+            todo.extend(t.children())
+    if not apps:
+        return z3.BoolVal(True)
+    other = z3.substitute(term, *[(a, sym.FreshReal("garbage")) for a in apps])
+    return term == other
